@@ -39,6 +39,10 @@ pub struct Plan {
     pub ops: Vec<BlockOp>,
     /// after the history: try to spend an output that is older than the window ("pool"/"block"/"")
     pub expired_spend: String,
+    /// at this operation the chain forks: a sibling block reaches the node first and is reorganised
+    /// away by the next block, so that a height holds an orphan stored before the longest-chain block
+    #[serde(default)]
+    pub fork_at: Option<usize>,
 }
 
 fn gen(seed: u64, tier: Tier) -> Plan {
@@ -69,6 +73,9 @@ fn gen(seed: u64, tier: Tier) -> Plan {
         base_amount: *rng.pick(&[10_000u64, 1_000_000, 500_000_000]),
         ops,
         expired_spend: rng.pick(&["pool", "block", "block", ""]).to_string(),
+        // only at heights that do not rebroadcast yet (id <= gp+1): the fork block is built while the
+        // node's ledger stands on the sibling, which is harmless only without a rebroadcast section
+        fork_at: if rng.chance(1, 2) { Some(rng.usize_below(gp as usize)) } else { None },
     }
 }
 
@@ -244,7 +251,7 @@ impl Scenario for C13 {
     fn meta(&self) -> Meta {
         Meta {
             level: "exploration",
-            rule: "run = real producer over genesis period 3..8 for 2-3 (quick) / 2-4 (thorough) windows; every block has 1-4 payments with fee class {0, small, large} (drives avg_fee_per_byte and so the rebroadcast fee) and optional dust outputs (1..2000 nolan); in 1 block of 4 one transaction creates an NFT group (Bound, payload, Bound) with a tiny / half / nearly-all deposit, which must be rebroadcast as a group (both bound slips unchanged around the payload) or collected; golden ticket every other block. For every accepted block B with id > gp+1: U = outputs of the chain's block at id-(gp+1) that are unspent in the reference ledger just before B. Oracle: B's ATR transactions are in bijection with a subset of U (same output identity, one ATR output to the same owner, 0 < amount <= input), nothing outside U and nothing twice, and sum(U) + total_payout_atr == sum(ATR outputs) + total_fees_atr in u128 (what is not rebroadcast is collected as fees). After B no member of U is spendable: an output older than the window offered as an input must be rejected by the pool and by block validation. distinct_nontrivial = distinct (genesis period, block id, |U|, rebroadcast count, dust count) of expiring blocks with |U| >= 1.",
+            rule: "run = real producer over genesis period 3..8 for 2-3 (quick) / 2-4 (thorough) windows; every block has 1-4 payments with fee class {0, small, large} (drives avg_fee_per_byte and so the rebroadcast fee) and optional dust outputs (1..2000 nolan); in 1 block of 4 one transaction creates an NFT group (Bound, payload, Bound) with a tiny / half / nearly-all deposit, which must be rebroadcast as a group (both bound slips unchanged around the payload) or collected; golden ticket every other block; in half of the runs one height early in the history holds a sibling block that reached the node first and was reorganised away (so the height has an orphan stored before its longest-chain block when it expires). For every accepted block B with id > gp+1: U = outputs of the chain's block at id-(gp+1) that are unspent in the reference ledger just before B. Oracle: B's ATR transactions are in bijection with a subset of U (same output identity, one ATR output to the same owner, 0 < amount <= input), nothing outside U and nothing twice, and sum(U) + total_payout_atr == sum(ATR outputs) + total_fees_atr in u128 (what is not rebroadcast is collected as fees). After B no member of U is spendable: an output older than the window offered as an input must be rejected by the pool and by block validation. distinct_nontrivial = distinct (genesis period, block id, |U|, rebroadcast count, dust count) of expiring blocks with |U| >= 1.",
             real: &["Block::generate_consensus_values (ATR section)", "Transaction::create_rebroadcast_transaction", "Block::validate (rebroadcast hash / slip count)", "Blockchain::add_block, prune/downgrade/delete_blocks", "Storage::load_block_from_disk"],
             stubs: &["SimIo", "SimConfig", "vendored ahash"],
             assumptions: &["NFT groups are created (Bound-Normal-Bound) and rebroadcast, not transferred, in this family", "staking off"],
@@ -278,7 +285,7 @@ impl Scenario for C13 {
                 return r;
             }
         };
-        for op in plan.ops.iter() {
+        for (oi, op) in plan.ops.iter().enumerate() {
             let mut used = vec![];
             let mut txs = vec![];
             if op.nft > 0 {
@@ -300,7 +307,22 @@ impl Scenario for C13 {
             let before = c.ledger.clone();
             let tip_hash = c.tip_rec().hash;
             let gt = op.gt || !c.node.bc.is_golden_ticket_count_valid(tip_hash, op.gt, false, false);
-            let ext = crate::util::guarded(|| c.extend(txs, gt, op.dt));
+            let forked = plan.fork_at == Some(oi) && oi + 1 < plan.ops.len() && c.tip_rec().id + 1 <= plan.gp + 1;
+            let ext = if forked {
+                // the sibling carries its own payment (it may well spend the same outputs: it is orphaned)
+                let mut used_s = vec![];
+                let mut txs_s = vec![];
+                if let Some(t) = payment_with_dust(&mut c, &mut rng, op.fee, op.dust, &mut used_s) {
+                    txs_s.push(t);
+                }
+                let tag = c.tag();
+                let ts = c.tip_rec().ts + tag;
+                txs_s.push(make_tx(&c.keys[2].clone(), &[], &[(c.keys[2].pk, 0)], ts, &tag.to_le_bytes()));
+                r.fault("sibling_block_stored_first", 1);
+                crate::util::guarded(|| c.extend_with_sibling_first(txs_s, txs, gt, op.dt))
+            } else {
+                crate::util::guarded(|| c.extend(txs, gt, op.dt))
+            };
             let idx = match ext {
                 Ok(Ok(i)) => i,
                 Ok(Err(e)) => {
